@@ -1,5 +1,5 @@
 (* allow-axioms:  *)
-From RRE Require Import Base.Sx Model.ExprShape Proofs.ExprShapeProofs.
+From RRE Require Import Base.Sx Base.Float Base.Num Model.ExprShape Proofs.ExprShapeProofs Model.BwExpr Proofs.BwExprProofs.
 Open Scope Z_scope.
 From RRE Require Import Properties.C05.
 Check (C05_expr_no_panic : forall ws is_num s,
@@ -9,3 +9,5 @@ Check (C05_operator_slices_valid : forall (ws : Z -> bool) (is_num : str -> bool
   ascii_ops ops -> find_operator ws ops e = Some pos ->
   exists l c r, slice e 0 pos = Some l /\ slice e pos (pos + 1) = Some [c] /\ slice e (pos + 1) (blen e) = Some r
                 /\ (length l < length e)%nat /\ (length r < length e)%nat).
+Check (C05_bw_expression_parser_total : forall is_alnum is_num is_ws s,
+  BwExpr.parse is_alnum is_num is_ws s <> BwExpr.Panic /\ BwExpr.parse is_alnum is_num is_ws s <> BwExpr.Fuel).
